@@ -57,8 +57,12 @@ def _mk():
     def b_minmax(which):
         def f(it, a, k, n):
             seq = seq_of(it, a[0]) if len(a) == 1 else list(a)
+            if not seq and "default" in k:
+                return k["default"]
             if any(isinstance(x, Unknown) for x in seq):
                 return Unknown("min/max")
+            if all(isinstance(x, int) and not isinstance(x, bool) for x in seq):
+                return (min if which == "min" else max)(seq)
             vals = [A._sym(x) for x in seq]
             return num((sp.Min if which == "min" else sp.Max)(*vals))
 
@@ -409,6 +413,19 @@ def _mk():
     def b_iter(it, a, k, n):
         return a[0]
 
+    def b_filter(it, a, k, n):
+        from .values import OneShot
+
+        fn_, seq = a[0], seq_of(it, a[1])
+        out = []
+        for x in seq:
+            t = it.truth(x if fn_ is None else it.call_function(fn_, [x], {}, n), n)
+            if t is True:
+                out.append(x)
+            elif t is not False:
+                raise Unsupported("filter() with an undecidable predicate")
+        return OneShot(out)
+
     def b_slice(it, a, k, n):
         if all(x is None or isinstance(x, int) for x in a):
             return slice(*a)
@@ -422,7 +439,7 @@ def _mk():
         "setattr": b_setattr, "reversed": b_reversed, "zip": b_zip, "enumerate": b_enumerate,
         "sorted": b_sorted, "str": b_str, "repr": b_str, "type": b_type, "callable": b_callable,
         "print": b_print, "any": b_any, "all": b_all, "round": b_round, "id": b_id, "map": b_map,
-        "iter": b_iter, "slice": b_slice,
+        "iter": b_iter, "slice": b_slice, "filter": b_filter,
     }
     out = {k: B(k, v) for k, v in table.items()}
     for exc in ("ValueError", "TypeError", "RuntimeError", "AssertionError", "KeyError", "IndexError",
